@@ -24,7 +24,10 @@ for d in sys.argv[1:]:
         rc, out = sh("go build ./... && go test -vet=off -count=1 ./...", cwd=scr)
         res["suite_passes"] = rc == 0
         if rc == 0:
-            for c in AREA.get(area, ["C15"]):
+            checks = AREA.get(area, ["C15"])
+            if os.environ.get("HARMLESS_MAX"):
+                checks = checks[:int(os.environ["HARMLESS_MAX"])]
+            for c in checks:
                 t0 = time.time()
                 rc, out = sh(f"bin/verif check {c} --no-evidence --repo {scr}", cwd="/verif")
                 lines = [l for l in out.split("\n") if l.startswith("VIOLATION") or l.startswith("  ")]
